@@ -11,9 +11,12 @@
 (***************************************************************************)
 EXTENDS Interp, Json
 CONSTANTS ModelSet, MaxCalls
-VARIABLES mid, fresh       \* which model of the family; whether the current call already created its fresh tensor
+VARIABLES mid, fresh,      \* which model of the family; the tensors created since the last call (the next call passes them all)
+          touched,         \* the caller tensor refilled since the last call (0: none): the next call passes it
+          stale            \* results of calls that read a buffer refilled since: the code may hand an operand back as a result (Concat of
+                           \* one tensor does), the model's results are always new objects, so these are not fed back
 P(c) == PrintT(<<"CASE", ToJson(c)>>)
-allvars == <<vars, mid, fresh>>
+allvars == <<vars, mid, fresh, touched, stale>>
 
 Nd(op, attrs, ins, outs) == [op |-> op, attrs |-> attrs, ins |-> ins, outs |-> outs]
 InD(name, dims) == [name |-> name, dt |-> "f32", dims |-> dims]
@@ -121,6 +124,10 @@ Models ==
       [nodes |-> <<Nd("Conv", <<AIs("dilations", <<2>>)>>, <<"x", "w", "b">>, <<"y">>), Nd("Conv", <<AIs("dilations", <<2, 1>>), AIs("pads", <<1, 0, 1, 0>>)>>, <<"x2", "w2">>, <<"y2">>)>>,
        inputs |-> <<InD("x", <<DSym, DFix(1), DFix(5)>>), InD("x2", <<DSym, DFix(1), DFix(3), DFix(2)>>)>>, outputs |-> <<"y", "y2">>,
        inits |-> [w |-> T("f32", <<2, 1, 2>>, <<1, -1, 2, 3>>), w2 |-> T("f32", <<1, 1, 2, 2>>, <<1, -1, 2, 1>>), b |-> T("f32", <<2>>, <<10, 20>>)]],
+    \* a dilated convolution whose kernel is a tensor of the caller
+    conv_kernel_caller |->
+      [nodes |-> <<Nd("Conv", <<AIs("dilations", <<2>>)>>, <<"x", "w">>, <<"y">>)>>,
+       inputs |-> <<InD("x", <<DSym, DFix(1), DFix(4)>>), InD("w", <<DFix(2), DFix(1), DFix(2)>>)>>, outputs |-> <<"y">>, inits |-> <<>>],
     \* PRelu slopes: equal rank with an axis to stretch, exactly the shape of x for batch 1, and lower rank
     prelu_slopes |->
       [nodes |-> <<Nd("PRelu", <<>>, <<"x", "s13">>, <<"p">>), Nd("PRelu", <<>>, <<"x", "s3">>, <<"q">>), Nd("Unsqueeze", <<>>, <<"x", "ax0">>, <<"xx">>),
@@ -144,22 +151,34 @@ Candidates(g, name) ==
     Iota("f32", XShape(g, name, 1) \o <<1>>, 0)}
 InputNames_ == {G.inputs[i].name : i \in 1..Len(G.inputs)}
 
-MCInit == Init /\ mid \in ModelSet /\ fresh = FALSE
+MCInit == Init /\ mid \in ModelSet /\ fresh = {} /\ touched = 0 /\ stale = {}
 
-DoLoad == ~model.loaded /\ Load(G) /\ UNCHANGED <<mid, fresh>>
-\* at most one new caller tensor per call
-DoNew == /\ model.loaded /\ runs[1].st = "idle" /\ ~fresh /\ Len(hist) < MaxCalls
-         /\ \E nm \in InputNames_ : \E t \in Candidates(G, nm) : NewInput(t)
-         /\ fresh' = TRUE /\ UNCHANGED mid
+DoLoad == ~model.loaded /\ Load(G) /\ UNCHANGED <<mid, fresh, touched, stale>>
+\* new caller tensors: one for each declared input before the first call (in declaration order), at most one before a later call
+DoNew == /\ model.loaded /\ runs[1].st = "idle" /\ Len(hist) < MaxCalls
+         /\ Cardinality(fresh) < (IF hist = <<>> THEN Len(G.inputs) ELSE 1)
+         /\ \E i \in 1..Len(G.inputs) : (hist = <<>> => i > Cardinality(fresh)) /\ \E t \in Candidates(G, G.inputs[i].name) : NewInput(t)
+         /\ fresh' = fresh \cup {Len(heap) + 1} /\ UNCHANGED <<mid, touched, stale>>
+\* between two calls the caller refills, in place, a tensor it passed to an earlier call (the buffer of the next inference)
+Refilled(t) == [t EXCEPT !.data = [k \in 1..Len(t.data) |-> 5 - 2 * t.data[k]]]
+DoRefill == /\ model.loaded /\ runs[1].st = "idle" /\ touched = 0 /\ Len(hist) >= 1 /\ Len(hist) < MaxCalls
+            /\ \E o \in 1..Len(heap) :
+                  /\ heap[o].owner = "caller" /\ (\A k \in 1..Len(heap[o].t.data) : heap[o].t.data[k] \in Int)
+                  /\ (\E j \in 1..Len(hist) : \E n \in DOMAIN hist[j].ins : hist[j].ins[n] = o)
+                  /\ CallerWrite(o, Refilled(heap[o].t)) /\ touched' = o
+                  /\ stale' = stale \cup UNION {{hist[j].resobjs[i] : i \in 1..Len(hist[j].resobjs)} :
+                                                 j \in {j \in 1..Len(hist) : \E n \in DOMAIN hist[j].ins : hist[j].ins[n] = o}}
+            /\ UNCHANGED <<mid, fresh>>
 \* a call: every declared input is bound to some existing object that is not a weight (or left out: a failing call)
 Usable == {o \in 1..Len(heap) : heap[o].owner # "model"}
 DoBegin == /\ model.loaded /\ runs[1].st = "idle" /\ Len(hist) < MaxCalls
-           /\ \E S \in SUBSET InputNames_ : \E ins \in [S -> Usable] :
+           /\ \E S \in SUBSET InputNames_ : \E ins \in [S -> Usable \ stale] :
                  /\ (S # InputNames_ => Cardinality(S) = Cardinality(InputNames_) - 1)       \* at most one input left out
-                 /\ (fresh => Len(heap) \in {ins[n] : n \in S})                              \* a freshly created tensor is used by this call
+                 /\ fresh \subseteq {ins[n] : n \in S}                                       \* freshly created tensors are used by this call
+                 /\ (touched # 0 => touched \in {ins[n] : n \in S})                          \* so is a refilled one
                  /\ RunBegin(1, ins)
-           /\ fresh' = FALSE /\ UNCHANGED mid
-DoStep == NodeStep(1) /\ UNCHANGED <<mid, fresh>>
+           /\ fresh' = {} /\ touched' = 0 /\ UNCHANGED <<mid, stale>>
+DoStep == NodeStep(1) /\ UNCHANGED <<mid, fresh, touched, stale>>
 
 \* how the harness obtains the tensor object bound to input nm of call k: a new tensor, or the object of an earlier call
 RefOf(h, k, nm) ==
@@ -176,14 +195,17 @@ CallJ(h, k) ==
        s == RunSem(G, h[k].invals) IN
    [ins |-> [nm \in newNames |-> h[k].invals[nm]],
     reuse |-> [nm \in (DOMAIN h[k].ins) \ newNames |-> RefOf(h, k, nm)],
+    \* what a reused object holds when this call begins (the caller may have refilled it since the call it is taken from)
+    holds |-> [nm \in {n \in (DOMAIN h[k].ins) \ newNames : RefOf(h, k, n).kind = "in"} |-> h[k].invals[nm]],
     allowed |-> IF s.ok THEN MustValue(s.out) ELSE IF "Indefinite" \in s.errc THEN NoCrash ELSE MustErrorOf(SeqOfSet(s.errc))]
 InitsSeq(g) == LET names == SeqOfSet(DOMAIN g.inits) IN [k \in 1..Len(names) |-> [name |-> names[k], t |-> g.inits[names[k]]]]
 HistFeat(h) == [k \in 1..Len(h) |->
                   IF ~h[k].ok THEN "fail"
+                  ELSE IF \E nm \in DOMAIN h[k].ins : RefOf(h, k, nm).kind = "in" /\ h[k].invals[nm] # h[RefOf(h, k, nm).call].invals[RefOf(h, k, nm).name] THEN "buffer_refilled"
                   ELSE IF \E nm \in DOMAIN h[k].ins : RefOf(h, k, nm).kind = "out" THEN "output_fed_back"
                   ELSE IF \E nm \in DOMAIN h[k].ins : RefOf(h, k, nm).kind = "in" THEN "object_reused" ELSE "fresh"]
 DoCollect ==
-   /\ Collect(1) /\ UNCHANGED <<mid, fresh>>
+   /\ Collect(1) /\ UNCHANGED <<mid, fresh, touched, stale>>
    /\ (Len(hist') = MaxCalls =>
          P([prop |-> "C02", fam |-> "history", kind |-> "model", op |-> "", attrs |-> <<>>, inputs |-> <<>>, nout |-> 0, allowed |-> NoCrash,
             cmp |-> "num", known |-> <<>>, feat |-> <<mid>> \o HistFeat(hist'),
@@ -191,12 +213,12 @@ DoCollect ==
                    calls |-> [k \in 1..Len(hist') |-> CallJ(hist', k)],
                    checks |-> <<"inputs_unchanged", "weights_unchanged", "fresh_equal">>]]))
 
-MCNext == DoLoad \/ DoNew \/ DoBegin \/ DoStep \/ DoCollect
+MCNext == DoLoad \/ DoNew \/ DoRefill \/ DoBegin \/ DoStep \/ DoCollect
 MCSpec == MCInit /\ [][MCNext]_allvars
 
 \* every completed call of the history returned what a freshly loaded model returns for the same input values
 HistoryIndependent ==
    \A k \in 1..Len(hist) : LET s == RunSem(G, hist[k].invals) IN hist[k].ok = s.ok /\ (s.ok => hist[k].out = s.out)
 WeightsAndCallerTensorsImmutable ==
-   [][\A o \in 1..Len(heap) : heap[o].owner \in {"model", "caller"} => heap'[o] = heap[o]]_allvars
+   [][\A o \in 1..Len(heap) : heap[o].owner \in {"model", "caller"} => (heap'[o] = heap[o] \/ (touched = 0 /\ touched' = o))]_allvars
 =============================================================================
